@@ -36,6 +36,15 @@ CHECKS = {
     "C16": dict(level="proof", technique="exact-tree abstract interpretation of every converting constructor/assignment for each ordered pair of numeric types: slot i = one cast of source slot i (directions: then the normalisation formula, decided algebraically)",
                 text="1152 obligations (96 classes x 6 ordered pairs x {construct, assign}); 'one cast, same slot, nothing else' is a shape property and is decided exactly.",
                 note="trusted: clang front end, evaluator, sympy for the direction normalisation identity", ref="3/C16"),
+    "C05": dict(level="other", technique="inverse pairs enumerated from resolved signatures; symbolic composition of algebraic normal forms (sympy, positive symbols) compared with the identity",
+                text="Decides the algebraic inverse law G(F(a,b..),b..) = a for every declared pair (about 1170 per numeric type), a necessary condition of the property; the few-ulp clause of the composed floating-point computation is not decided.",
+                note="trusted: clang front end, evaluator, sympy normalisation; pairing rule documented in DESIGN 3/C05", ref="3/C05"),
+    "C09": dict(level="other", technique="polynomial normal forms of every tensor kernel and product overload compared with index-notation definitions (oracle/tensor_algebra.py) on 3x3/3-vector embeddings; inverse guard shape",
+                text="Decides the formula clause for all inputs (polynomial identity => exact on integer-valued inputs) and the absent-iff-singular clause; the few-ulp clause on non-integer inputs is not decided.",
+                note="trusted: clang front end, evaluator, sympy; oracle written from index notation", ref="3/C09"),
+    "C18": dict(level="other", technique="definitional functions located by parameter types; algebraic normal form compared with a table of textbook formulas (oracle/formulas.py, 68 entries)",
+                text="Decides which real function each definitional relation computes, constants included, for all positive inputs and the three numeric types; few-ulp accuracy is not decided.",
+                note="trusted: clang front end, evaluator, sympy, the formula table", ref="3/C18, Appendix B"),
 }
 
 NOT_YET = {
